@@ -11,6 +11,7 @@ pub mod heartbeat;
 pub mod hs;
 pub mod machine;
 pub mod obey;
+pub mod overlap;
 pub mod slots;
 pub mod smoother;
 pub mod tune;
@@ -33,6 +34,7 @@ pub fn make(name: &str) -> Option<Box<dyn Engine>> {
         "hs" => Some(Box::new(hs::HsEngine::default())),
         "machine" => Some(Box::new(machine::MachineEngine::default())),
         "obey" => Some(Box::new(obey::ObeyEngine::default())),
+        "overlap" => Some(Box::new(overlap::OverlapEngine::default())),
         "parsecheck" => Some(Box::new(framebuf::ParseCheckEngine::default())),
         "slots" => Some(Box::new(slots::SlotsEngine::default())),
         "smoother" => Some(Box::new(smoother::SmootherEngine::default())),
